@@ -4,17 +4,20 @@ import engine_plugin as ep
 import c09shape as shp
 
 ID = "C09"
-LEAN_MODULES = ['HgVerif.Props.C09', 'HgVerif.Model.Engine', 'HgVerif.Model.Extracted'] + list(shp.LEAN_MODULES)
-THEOREMS = ['HgVerif.Engine.nested_push_clamped', 'HgVerif.Engine.child_not_before_parent', 'HgVerif.Engine.root_schedule_direct', 'HgVerif.Sched.child_wakeups_kept', 'HgVerif.Sched.push_wakes_parent'] + list(shp.THEOREMS)
+LEAN_MODULES = ['HgVerif.Props.C09', 'HgVerif.Props.C09Flow', 'HgVerif.Model.Engine', 'HgVerif.Model.Extracted'] + list(shp.LEAN_MODULES)
+THEOREMS = ['HgVerif.Engine.nested_push_clamped', 'HgVerif.Engine.child_not_before_parent', 'HgVerif.Engine.root_schedule_direct', 'HgVerif.Sched.child_wakeups_kept', 'HgVerif.Sched.push_wakes_parent',
+            'HgVerif.NestFlow.push_fold_is_Nest_push', 'HgVerif.NestFlow.nested_eval_is_Nest_eval', 'HgVerif.NestFlow.nest_cycle', 'HgVerif.NestFlow.star_cycle',
+            'HgVerif.NestFlow.nested_cycle_eq_inlined', 'HgVerif.NestFlow.star_run', 'HgVerif.NestFlow.nested_run_eq_inlined', 'HgVerif.NestFlow.nested_sim_inlined_flow',
+            'HgVerif.NestFlow.nested_depth_irrelevant_flow', 'HgVerif.NestFlow.order_nest1', 'HgVerif.NestFlow.nested1_run_eq_inlined'] + list(shp.THEOREMS)
 CXX_TARGETS = ['hgv_engine'] + list(shp.CXX_TARGETS)
 USES_EXTRACT = True
 RULE = 'each generated sub-graph definition (stateful nodes, self-scheduling scripts, internal sources, passive/unchecked inputs) is wired twice in one parent, nested and inlined, with sinks on both outputs that must record equal streams; non-trivial = >=2 cycles with user code; distinct by program text' + ' ' + shp.RULE
 TRUSTED = ['forwarding output / ParentInput alias modelled as direct bindings to the leaf producer'] + list(shp.TRUSTED)
 ASSUMPTIONS = ['all ports TS[int]; REF-shaped boundaries are part of C13'] + list(shp.ASSUMPTIONS)
-TECHNIQUE = 'Lean 4 proof of the nested scheduling invariants (clamp, child never ahead of parent) + differential correspondence + nested-vs-inlined reference monitor'
-LEVEL_TEXT = ("Kernel-checked: an out-of-band schedule on an idle child is clamped to the parent's current time and reaches the parent node no later than that time; a child is never evaluated ahead of its parent. The executable model of nested start / evaluate / pull-propagate / push path is compared trace-for-trace with the runtime, and for every generated definition the nested and the inlined wiring must produce identical sink streams (monitor)."
+TECHNIQUE = 'Lean 4 proof of the nested scheduling invariants (clamp, child never ahead of parent) and of nested = inlined for flat dataflow sub-graphs at every depth of a chain (lock-step simulation of the child cycle with the child stretch of the inlined scan, induction over the nesting tree) + differential correspondence + nested-vs-inlined reference monitor'
+LEVEL_TEXT = ("Kernel-checked: an out-of-band schedule on an idle child is clamped to the parent's current time and reaches the parent node no later than that time; a child is never evaluated ahead of its parent. NESTED = INLINED for flat dataflow sub-graphs (Props/C09Flow.lean): for every flat dataflow F with arbitrary node functions (frame condition, self-requests in the future), every nesting tree over F of any depth (each graph run by the generic scan of graph.cpp, the nested node = child cycle + propagate_nested_parent_schedule, boundary writes through nested_schedule_node_impl with its clamp, child-output writes delivered to the outer consumers) and every topological rank of the inlined flow, from corresponding idle states after start: one cycle leaves every node in the same state with the same user-code runs, the same writers and corresponding schedule slots / next time (nested_cycle_eq_inlined), and whole simulation runs have the same cycle times, the same final state of every node and the same ok flag (nested_run_eq_inlined = nested_sim_inlined_flow); two nestings of one dataflow agree (nested_depth_irrelevant_flow). The executable model of nested start / evaluate / pull-propagate / push path is compared trace-for-trace with the runtime, and for every generated definition the nested and the inlined wiring must produce identical sink streams (monitor)."
               " Structured results and implicit captures (Props/C09Shape.lean, Props/C09Capture.lean, stream nestshape): for the forwarding-tree binder as coded, every leaf of a structured result is bound after start, the outer delta of a cycle equals the body's delta and the outer value the body's value at every depth (nested_delta_eq_inlined_delta, nested_depth_irrelevant), nothing ticks outside without a body tick; the outer-capture table maps two references to one slot iff they are the same port and binds each captured body input to exactly that outer port through any number of levels (capture_slots_injective_on_ports, captured_binding_through_levels); the known finding C09-composed and the seeded short-circuit / node-keyed table are kept as kernel-checked counter-witnesses.")
-LEVEL_NOTE = 'Trusted: Lean kernel; model tied by correspondence. The full simulation theorem nested_sim_inlined is NOT proved; its statement is kept in Props/C09.lean and the equality is enforced by the monitor on generated programs (partial).'
+LEVEL_NOTE = 'Trusted: Lean kernel; model tied by correspondence. The run-level theorem covers chains of nested flat dataflows from corresponding states AFTER start (start-time sampling is where the known finding F2 lives; Corr fails at time 0 there and nothing is claimed); not covered by proof, only by the nested-vs-inlined monitor on generated programs: several nested nodes in one graph, map_/switch_/try_except children, failing nodes, structured boundaries beyond the forwarding-binder theorems, the push-source prefix.'
 
 
 def streams(rng, tier, seed):
